@@ -3,6 +3,7 @@ package main
 // Mapping of Go types to SMT sorts, datatype generation, zero values, range axioms.
 
 import (
+	"crypto/sha1"
 	"fmt"
 	"go/types"
 	"regexp"
@@ -26,6 +27,7 @@ type Gen struct {
 	axiomNames  []string
 	strLits     map[string]string // literal -> const name
 	strOrder    []string
+	strNames    map[string]string // constant name -> literal
 	errGlobals  map[string]int
 	usedExt     map[string]bool // assumed external contracts actually used
 	sortOfType  map[string]string
@@ -442,7 +444,14 @@ func (g *Gen) StrLit(s string) string {
 	if c, ok := g.strLits[s]; ok {
 		return c
 	}
-	c := fmt.Sprintf("str!%d", len(g.strOrder))
+	// the constant is named after its content, not after the order of first use, so that an obligation's text does not
+	// depend on what else the process verified before
+	h := sha1.Sum([]byte(s))
+	c := fmt.Sprintf("str!%x", h[:6])
+	if g.strNames == nil {
+		g.strNames = map[string]string{}
+	}
+	g.strNames[c] = s
 	g.strLits[s] = c
 	g.strOrder = append(g.strOrder, s)
 	return c
@@ -452,30 +461,32 @@ func (g *Gen) StrLit(s string) string {
 func (g *Gen) Preamble(stripQ bool) string { return g.PreambleFor(stripQ, "") }
 
 // PreambleFor emits declarations and those global axioms whose function symbols occur in body (all of them if body is empty).
+var identRe = regexp.MustCompile(`[A-Za-z_][A-Za-z0-9_!.]*`)
+
+func identSet(text string, into map[string]bool) {
+	for _, m := range identRe.FindAllString(text, -1) {
+		into[m] = true
+	}
+}
+
+// PreambleFor builds the declarations for one query. It is canonical: it contains only what the query (body) reaches -
+// the axioms relevant to it, the uninterpreted functions, string literals and datatypes those mention, closed transitively -
+// in a fixed (sorted) order. The same obligation therefore gets the same text whatever else was verified in the process.
 func (g *Gen) PreambleFor(stripQ bool, body string) string {
-	var b strings.Builder
-	b.WriteString("(declare-sort Str 0)\n(declare-sort Addr 0)\n(declare-sort Ctx 0)\n(define-sort Opq () Int)\n")
-	b.WriteString("(declare-datatypes ((Any 0)) (((any_nil) (any_str (any_s Str)) (any_int (any_i Int)) (any_bool (any_b Bool)) (any_addr (any_a Addr)) (any_other (any_o Int)))))\n")
-	b.WriteString("(declare-const addr_nil Addr)\n(declare-const ctx0 Ctx)\n")
-	// datatypes in dependency order: declare all at once (mutually recursive block is fine)
-	if len(g.dtOrder) > 0 {
-		var names, decls []string
-		for _, n := range g.dtOrder {
-			names = append(names, fmt.Sprintf("(%s 0)", n))
-			decls = append(decls, g.dtDecl[n])
+	// 1. relevant global axioms (prelude ones are handled below)
+	type ax struct{ name, text string }
+	var axs []ax
+	for i, a := range g.axioms {
+		if stripQ && (strings.Contains(a, "(forall ") || strings.Contains(a, "(exists ")) {
+			continue
 		}
-		b.WriteString("(declare-datatypes (" + strings.Join(names, " ") + ") (" + strings.Join(decls, "\n ") + "))\n")
-	}
-	for i := range g.strOrder {
-		fmt.Fprintf(&b, "(declare-const str!%d Str)\n", i)
-	}
-	if len(g.strOrder) > 1 {
-		b.WriteString("(assert (distinct")
-		for i := range g.strOrder {
-			fmt.Fprintf(&b, " str!%d", i)
+		if body != "" && strings.Contains(a, "(forall ") && !g.axiomRelevant(a, body) {
+			continue
 		}
-		b.WriteString("))\n")
+		axs = append(axs, ax{g.axiomNames[i], a})
 	}
+	sort.Slice(axs, func(i, j int) bool { return axs[i].name < axs[j].name })
+	var prelude []string
 	for _, l := range strings.Split(preludeFuns, "\n") {
 		if strings.Contains(l, "(forall ") {
 			if stripQ {
@@ -485,22 +496,111 @@ func (g *Gen) PreambleFor(stripQ bool, body string) string {
 				continue
 			}
 		}
+		prelude = append(prelude, l)
+	}
+	// 2. identifiers reachable from the query
+	used := map[string]bool{}
+	identSet(body, used)
+	for _, a := range axs {
+		identSet(a.text, used)
+	}
+	for _, l := range prelude {
+		if strings.HasPrefix(l, "(assert") {
+			identSet(l, used)
+		}
+	}
+	funName := func(decl string) string {
+		t := strings.TrimPrefix(decl, "(declare-fun ")
+		if i := strings.IndexByte(t, ' '); i > 0 {
+			return t[:i]
+		}
+		return t
+	}
+	incFun := map[string]bool{}
+	incDt := map[string]bool{}
+	if body == "" {
+		for _, d := range g.funDecls {
+			incFun[d] = true
+		}
+		for _, n := range g.dtOrder {
+			incDt[n] = true
+		}
+	}
+	dtMentions := func(n string) bool {
+		if used[n] || used["mk_"+n] {
+			return true
+		}
+		// an accessor or tester of the datatype
+		for id := range used {
+			if strings.HasPrefix(id, n+"_") {
+				return true
+			}
+		}
+		return false
+	}
+	for changed := true; changed; {
+		changed = false
+		for _, d := range g.funDecls {
+			if !incFun[d] && used[funName(d)] {
+				incFun[d] = true
+				identSet(d, used)
+				changed = true
+			}
+		}
+		for _, n := range g.dtOrder {
+			if !incDt[n] && dtMentions(n) {
+				incDt[n] = true
+				identSet(g.dtDecl[n], used)
+				changed = true
+			}
+		}
+	}
+	var b strings.Builder
+	b.WriteString("(declare-sort Str 0)\n(declare-sort Addr 0)\n(declare-sort Ctx 0)\n(define-sort Opq () Int)\n")
+	b.WriteString("(declare-datatypes ((Any 0)) (((any_nil) (any_str (any_s Str)) (any_int (any_i Int)) (any_bool (any_b Bool)) (any_addr (any_a Addr)) (any_other (any_o Int)))))\n")
+	b.WriteString("(declare-const addr_nil Addr)\n(declare-const ctx0 Ctx)\n")
+	var dts []string
+	for n := range incDt {
+		dts = append(dts, n)
+	}
+	sort.Strings(dts)
+	if len(dts) > 0 {
+		var names, decls []string
+		for _, n := range dts {
+			names = append(names, fmt.Sprintf("(%s 0)", n))
+			decls = append(decls, g.dtDecl[n])
+		}
+		b.WriteString("(declare-datatypes (" + strings.Join(names, " ") + ") (" + strings.Join(decls, "\n ") + "))\n")
+	}
+	var strs []string
+	for c := range g.strNames {
+		if body == "" || used[c] {
+			strs = append(strs, c)
+		}
+	}
+	sort.Strings(strs)
+	for _, c := range strs {
+		fmt.Fprintf(&b, "(declare-const %s Str)\n", c)
+	}
+	if len(strs) > 1 {
+		b.WriteString("(assert (distinct " + strings.Join(strs, " ") + "))\n")
+	}
+	for _, l := range prelude {
 		b.WriteString(l + "\n")
 	}
-	for i, s := range g.strOrder {
-		fmt.Fprintf(&b, "(assert (= (strlen str!%d) %d))\n", i, len(s))
+	for _, c := range strs {
+		fmt.Fprintf(&b, "(assert (= (strlen %s) %d))\n", c, len(g.strNames[c]))
 	}
-	for _, d := range g.funDecls {
+	var fds []string
+	for d := range incFun {
+		fds = append(fds, d)
+	}
+	sort.Strings(fds)
+	for _, d := range fds {
 		b.WriteString(d + "\n")
 	}
-	for i, a := range g.axioms {
-		if stripQ && (strings.Contains(a, "(forall ") || strings.Contains(a, "(exists ")) {
-			continue
-		}
-		if body != "" && strings.Contains(a, "(forall ") && !g.axiomRelevant(a, body) {
-			continue
-		}
-		fmt.Fprintf(&b, "; axiom %s\n(assert %s)\n", g.axiomNames[i], a)
+	for _, a := range axs {
+		fmt.Fprintf(&b, "; axiom %s\n(assert %s)\n", a.name, a.text)
 	}
 	return b.String()
 }
@@ -602,9 +702,8 @@ func divTerm(op, a, b string) string {
 
 // litOf: the Go string literal a term denotes, if it is a literal constant.
 func (g *Gen) litOf(term string) (string, bool) {
-	var n int
-	if _, err := fmt.Sscanf(term, "str!%d", &n); err == nil && n >= 0 && n < len(g.strOrder) && fmt.Sprintf("str!%d", n) == term {
-		return g.strOrder[n], true
+	if v, ok := g.strNames[term]; ok {
+		return v, true
 	}
 	return "", false
 }
@@ -651,7 +750,8 @@ func (g *Gen) axiomRelevant(ax, body string) bool {
 }
 
 // HasElem declares the membership predicate of a slice sort with its defining axioms:
-//   (A1) every element at an index below len is a member; (A2) a member has a witness index (Skolem function).
+//
+//	(A1) every element at an index below len is a member; (A2) a member has a witness index (Skolem function).
 func (g *Gen) HasElem(s string) string {
 	es := g.sliceElem[s]
 	fn := "has_elem_" + mangle(s)
